@@ -181,3 +181,18 @@ def main(run, pid):
         rc = 2
     print('%s tier=%s seed=%d exit=%d wall=%.1fs' % (pid, a.tier, chk.seed, rc, time.time() - chk.t0))
     sys.exit(rc)
+
+
+def _pinit():
+    use_repo()
+    import logging
+    logging.disable(logging.CRITICAL)
+
+
+def pmap(func, items, workers=16, chunksize=8):
+    """Run func over items in worker processes (each imports proxy from the tree under test).  Order is preserved."""
+    from concurrent.futures import ProcessPoolExecutor
+    if len(items) < 32:
+        return [func(x) for x in items]
+    with ProcessPoolExecutor(workers, initializer=_pinit) as ex:
+        return list(ex.map(func, items, chunksize=chunksize))
